@@ -160,8 +160,13 @@ where
                 Some(DateToken::Literal(ref s))
                     if { s.to_lowercase() == "bc" || s.to_lowercase() == "bce" } =>
                 {
-                    out.year = out.year.map(|x| -x + 1);
-                    Ok(())
+                    match out.year.map(|x| x.checked_neg().and_then(|x| x.checked_add(1))) {
+                        Some(None) => Err(format!("Expected year, got out of range value")),
+                        year => {
+                            out.year = year.flatten();
+                            Ok(())
+                        }
+                    }
                 }
                 x => Err(format!("Expected AD/BC or CE/BCE, got {}", ts(x))),
             },
@@ -255,8 +260,13 @@ where
                         take!(DateToken::Colon);
                         let m = take!(DateToken::Number(s, None), s);
                         if let Some(m) = parse_range(&m, 2, 0..=59) {
-                            out.offset = Some(s * (h * 3600 + m * 60));
-                            Ok(())
+                            let secs = h.checked_mul(3600).and_then(|h| h.checked_add(m * 60));
+                            if let Some(secs) = secs {
+                                out.offset = Some(s * secs);
+                                Ok(())
+                            } else {
+                                Err(format!("Expected offset, got out of range value {}", h))
+                            }
                         } else {
                             Err(format!("Expected 2 digits after : in offset, got {}", m))
                         }
@@ -478,7 +488,14 @@ pub fn to_duration(num: &Number) -> Result<Duration, String> {
     let ms = &num.value * &Numeric::from(1000);
     let (ms, rem) = ms.div_rem(&Numeric::from(1));
     let ns = &rem * &Numeric::from(1_000_000);
-    Ok(Duration::milliseconds(ms.to_int().unwrap()) + Duration::nanoseconds(ns.to_int().unwrap()))
+    // A float can compare equal to the limit above and still be too large.
+    match (ms.to_int(), ns.to_int()) {
+        (Some(ms), Some(ns)) => Ok(Duration::milliseconds(ms) + Duration::nanoseconds(ns)),
+        _ => Err(format!(
+            "Implementation error: Number is out of range ({:?})",
+            max
+        )),
+    }
 }
 
 pub fn from_duration(duration: &Duration) -> Result<Number, String> {
